@@ -158,6 +158,11 @@ def check_component(where, name, comp, key):
                 # the optimiser's vector has its balance points reversed: the objective smooths before full_model swaps them,
                 # the read-back path swaps first (finding H of the property text)
                 cause = "raw_balance_points_crossed"
+            elif "hdd_k" in g and ((g["cdd_bp"] >= comp.T_max and g.get("cdd_beta") != 0 and g.get("cdd_k", 0) != 0)
+                                   or (g["hdd_bp"] <= comp.T_min and g.get("hdd_beta") != 0 and g.get("hdd_k", 0) != 0)):
+                # a smoothed branch whose balance point sits on the range limit: active when scored (smoothing reaches inwards),
+                # dropped by fix_full_model_x when the coefficients are kept
+                cause = "branch_dropped_balance_point_on_range_limit"
             elif "hdd_k" in g and ((g.get("hdd_beta") == 0 and g.get("hdd_k", 0) != 0) or (g.get("cdd_beta") == 0 and g.get("cdd_k", 0) != 0)):
                 # a branch with zero slope still carries a smoothing fraction: the objective lets it take part in the
                 # normalisation of the two fractions, the read-back path zeroes it first
